@@ -19,6 +19,10 @@ CHECKS = {
   text="Round-trip oracle against the input: for generated well-framed streams with arbitrary/corrupted word-structured payloads, every error message's leading offset must be an RDH start or word start of the independently walked chain, quoted 10-byte dumps must equal the input bytes at that offset, `current :` RDH rows must equal an independent decode, frame messages must end on a TDT; all five check modes, all filter kinds, muted and unmuted, stderr and statistics file.",
   note="Trusted base: independent chain walker and word-offset arithmetic; domain restricted (by the statement) to payload layouts that agree with the header's data format.",
   technique="property-based testing: round-trip oracle (re-read the input at the reported offset) over generated and mutated streams"),
+ "C08": dict(
+  text="Reference-filter testing on the real CLI: for generated well-framed streams the tool is run once per distinct link / FEE / layer-stave value (plus absent values) to a file, to explicit and to default stdout, from file and pipe; each output must equal the concatenation of exactly the matching packets (independent walker and predicate), the outputs must cover every packet exactly once, each output must walk as a chain, re-filtering must be idempotent and rdhs_filtered must equal the match count.",
+  note="Trusted base: independent walker and filter predicates (mask 0x703F for layer/stave); every packet's RDH0 passes the pre-check so that any packet may start a derived file.",
+  technique="property-based testing: differential against a reference filter + algebraic laws (partition, idempotence) over generated streams"),
  "C09": dict(
   text="Model-based testing against the hand-transcribed state diagram: the complete reachable product of (implementation state id via hook, diagram state) under all 12 word classes is enumerated (every edge and every (state, illegal word) pair), then hundreds of thousands of generated word sequences with random field bits are pushed through the FSM and through the payload validator (split over packets), and through the real CLI embedded in packets. Legal word => classification and successor equal the diagram's; illegal word => reported at that word with E30/E40 `ID is not` or E990/E991/E992.",
   note="Trusted base: the transcription of doc/ITS_payload_fsm_continuous_mode.puml in harness/src/props/c09.rs (DESIGN.md A.1); the abstraction from 11 implementation variants to 8 diagram states; recovery after an illegal word is unspecified and not judged.",
@@ -35,6 +39,10 @@ CHECKS = {
   text="Reference-chunker testing: both data formats x 0..700 words x 0..40 trailing 0xFF through `preprocess_payload` (differential against an independent chunker), `do_payload_checks` with one faulty word at a generated index (examined exactly once, at its offset, with its bytes), the over-padding triple (reported once at the RDH, payload skipped, state reset) in-process and through the CLI, and the CLI data view (one row per word, no padding row).",
   note="Trusted base: ref_chunk in harness/src/model.rs; words carry their index so order and multiplicity are observable.",
   technique="property-based testing: differential against a reference chunker + metamorphic state-reset triple"),
+ "C14": dict(
+  text="Ground-truth recomputation: every statistic of the statistics file (JSON and TOML) and the cross-checked report rows are compared with values recomputed from the input by the independent walker, for generated well-framed streams with arbitrary header values and for (mutated) conforming streams, in all check modes, the three views and filtered writing, with every filter kind, from file and pipe.",
+  note="Trusted base: independent walker; which packets count for which statistic is fixed in DESIGN.md A.5; sets compared as sets, links required sorted; runs with FATAL early stop excluded (counted).",
+  technique="property-based testing: differential against independently recomputed ground truth"),
  "C16": dict(
   text="Contract oracle over generated command lines and inputs: all invalid option combinations (enumerated) must be rejected with non-zero exit, empty stdout and no file created; unreadable/unrecognisable inputs exit non-zero without crashing; for processed inputs (clean / erroneous / mid-stream fatal, five modes, -E n, custom checks) exit = n iff anything was reported, total_errors = listed + custom = messages shown, and -m / -w / -e change only what is displayed (-w exactness checked with codes that are prefixes and extensions of present codes).",
   note="Trusted base: stderr/stats/report parsers of the harness; the exit-status oracle relates observables of the same run, with the classes clean / wrong custom check known by construction.",
